@@ -354,14 +354,14 @@ func genC20(r *rng, tier string, st *stats) []taggedScen {
 		// the first attempt succeeds (or the node has no exec phase at all)
 		b := newSB()
 		b.sc.Root = b.waitNode(k, 3, 1, 0)
-		add(b, true, "part=nowait", "wait=1h", "node=user", "first_attempt_succeeds", "kind="+k.Impl)
+		add(b, false, "part=nowait", "wait=1h", "node=user", "first_attempt_succeeds", "kind="+k.Impl)
 		// budget 1: the only attempt fails, nothing to wait for
 		if k.Exec != "absent" {
 			k1 := k
 			k1.Retry = retry(1, hourMs)
 			b := newSB()
 			b.sc.Root = b.waitNode(k1, 1, 0, 0)
-			add(b, true, "part=nowait", "wait=1h", "node=user", "budget_1_fails", "kind="+k.Impl, "fb="+k.Fb)
+			add(b, false, "part=nowait", "wait=1h", "node=user", "budget_1_fails", "kind="+k.Impl, "fb="+k.Fb)
 		}
 	}
 	// ---- gaps, single nodes: real waits
@@ -462,7 +462,7 @@ func genC20(r *rng, tier string, st *stats) []taggedScen {
 	}
 	st.Exhaustive = false
 	st.Scope = "retryable node kinds x budgets 2..4 (quick) / 2..5 (thorough) x first succeeding attempt in {2..N, never} x waits {1,5,20,50} ms x fast / slow failing attempts; interruption of the first wait (1 h) and of the second / third wait (2 s) with cancel and deadline contexts; 1 h wait with no wait in the run; batch items sequential and concurrent (3 workers, gated), 1..4 items, interruption per item index, random per-item outcomes with waits {1,5,10,20} ms"
-	st.Rule = "a case is non-trivial when at least one wait belongs in the run or a one-hour wait is configured; distinct by scenario hash"
+	st.Rule = "a case is non-trivial when at least one retry wait belongs in the run (completed or interrupted); the one-hour configurations in which no wait belongs count as trivial; distinct by scenario hash"
 	return out
 }
 
